@@ -44,11 +44,19 @@ structure DSt where
   prims : Array (Nat × Prim) := #[]                                 -- `env P`
   world : World := []                                               -- the Chaperone instances, in creation order
   cur : Nat := 0                                                    -- the one the next operation addresses
+  last : Option (Folded Nat) := none                                -- the report of the last `fold` / `map`
+  mapfns : List ((String × Nat) × Res Nat) := []                    -- `env M`: what the mapped function did on a structure
+  tables : List (Nat × List Nat × List Nat) := []                   -- instances whose public tables were overridden
   table : Array (Key × Val) := #[]
   texts : Array Text := #[]       -- `env T <hex>` defines text number `texts.size`; later tokens `@k` refer to it
 
 /-- the addressed instance (a default-configured one if none was created yet) -/
 def DSt.inst (st : DSt) : Inst := (st.world[st.cur]?).getD ⟨Cfg.new [], Stats.zero⟩
+/-- the extraction / repair tables the addressed instance sees (the shipped ones unless overridden) -/
+def DSt.curTables (st : DSt) : List Nat × List Nat :=
+  match st.tables.find? (fun e => e.1 == st.cur) with
+  | some (_, t) => t
+  | none => (patternIds, repairIds)
 def DSt.cfg (st : DSt) : Cfg := st.inst.cfg
 def DSt.stats (st : DSt) : Stats := st.inst.stats
 /-- store the counters of the addressed instance (creating the implicit default instance if needed) -/
@@ -90,6 +98,8 @@ def modelledCoerce (st : DSt) (j : Nat) : Res (Nat × List Nat) :=
 def mismatch : Exc := .other 998
 
 def mkEnv (st : DSt) (tb : Array (Key × Val)) : Env Nat Nat Nat where
+  patterns := st.curTables.1
+  repairs := st.curTables.2
   loads t := match lookup tb (.L t) with | some (_, .j r) => r | _ => .raise unrecorded
   isNone j := j == 0
   findall i t := match lookup tb (.F i t) with | some (_, .texts r) => r | _ => .raise unrecorded
@@ -212,6 +222,19 @@ def step (st : DSt) (toks : List String) : DSt × String :=
   | "env" :: "O" :: j :: items => ({ st with ofd := st.ofd.push (items.map pairOf, natD j) }, "ok")
   | ["env", "P", v, a, b, i, f, s, bo, sp] =>
     ({ st with prims := st.prims.push (natD v, ⟨boolOf a, boolOf b, optNat i, optNat f, natD s, optNat bo, natD sp⟩) }, "ok")
+  | ["env", "M", fn, sid, "ok", sid'] => ({ st with mapfns := ((fn, natD sid), .ok (natD sid')) :: st.mapfns }, "ok")
+  | ["env", "M", fn, sid, "raise", e] => ({ st with mapfns := ((fn, natD sid), .raise (excOf e)) :: st.mapfns }, "ok")
+  | ["map", fn] =>
+    match st.last with
+    | none => (st, "no-report")
+    | some p =>
+      let f : Nat → Res Nat := fun sid =>
+        match st.mapfns.find? (fun e => e.1 == (fn, sid)) with | some (_, r) => r | none => .raise unrecorded
+      let q := p.map f
+      let sid := match q.struct with | some s => toString s | none => "none"
+      ({ st with last := some q },
+        joinSp [showBool q.valid, sid, showBool q.err.isSome, showBool (q.raw == p.raw), "1", showBool p.mapCalls]
+        ++ " ## " ++ (if !p.mapCalls then "map:skip" else if q.valid then "map:ok" else "map:raise"))
   | ["env", "T", t] => ({ st with texts := st.texts.push (decodeCps t) }, "ok")
   | "env" :: rest =>
     match parseEnv st.texts rest with
@@ -221,6 +244,13 @@ def step (st : DSt) (toks : List String) : DSt × String :=
       | none => ({ st with table := st.table.push e }, "ok")
     | none => (st, "bad-env")
   | ["new", c] => ({ st with world := st.world.create (stratsOf c), cur := st.world.length }, "ok")
+  | ["tables", ps, rs] =>
+    let ids := fun (x : String) => if x = "-" then [] else (x.splitOn ",").map (natD ·)
+    ({ st with tables := (st.cur, ids ps, ids rs) :: st.tables.filter (fun e => e.1 != st.cur) }, "ok")
+  | ["newsub", c, ps, rs] =>
+    let ids := fun (x : String) => if x = "-" then [] else (x.splitOn ",").map (natD ·)
+    ({ st with world := st.world.create (stratsOf c), cur := st.world.length,
+               tables := (st.world.length, ids ps, ids rs) :: st.tables }, "ok")
   | ["use", i] => if natD i < st.world.length then ({ st with cur := natD i }, "ok") else (st, "no-such-instance")
   | ["tune", t] =>
     match tuneOf t with
@@ -234,7 +264,7 @@ def step (st : DSt) (toks : List String) : DSt × String :=
     match fold (mkEnv st st.table) st.cfg st.stats rawT (stratsOf call) with
     | ⟨tr, .ok (stats', r)⟩ =>
       let sid := match r.struct with | some s => toString s | none => "none"
-      (st.withStats stats',
+      ({ st.withStats stats' with last := some r },
         joinSp [showBool r.valid, sid, showBool r.err.isSome, showBool (r.raw == rawT), showCalls st st.table tr]
         ++ " ## " ++ joinSp ((if r.valid then "hit" else "fail") :: convTags tr))
     | ⟨tr, .raise _⟩ => (st, joinSp ["raise", showCalls st st.table tr])
